@@ -110,8 +110,16 @@ func init() {
 	for _, id := range []string{"C11", "C12", "C13"} {
 		id := id
 		Register(&PropDef{
-			ID:       id,
-			Profile:  func(tier string, r *Rng) Profile { return disputeProfile("dispute-" + id) },
+			ID: id,
+			Profile: func(tier string, r *Rng) Profile {
+				p := disputeProfile("dispute-" + id)
+				// directed fragments in a third of the cases: a dispute carried through six rounds (C12, C13), a backer
+				// who undelegated everything in two steps before the dispute (C11)
+				if r.Chance(0.34) {
+					p.Fragments = map[string][]string{"C11": {"twoUnbondings"}, "C12": {"deepRounds"}, "C13": {"deepRounds"}}[id]
+				}
+				return p
+			},
 			Monitors: func(st *Stats) []Monitor { return []Monitor{NewDisputeMonitor(st)} },
 			Cases:    tierMap(48, 160),
 			Blocks:   tierMap(300, 600),
@@ -157,16 +165,26 @@ func init() {
 		return p
 	},
 		Monitors: func(st *Stats) []Monitor { return []Monitor{NewC06ChainMonitor(st)} }, Cases: tierMap(24, 96), Blocks: tierMap(300, 600), DeathModules: []string{"oracle"}})
-	Register(&PropDef{ID: "C08", Profile: func(tier string, r *Rng) Profile { return oracleProfile("c08-history") },
+	Register(&PropDef{ID: "C08", Profile: func(tier string, r *Rng) Profile {
+		p := oracleProfile("c08-history")
+		if r.Chance(0.4) {
+			p.Fragments = []string{"twinAggregates"} // two aggregates with one micro height, both determining reports disputed
+		}
+		return p
+	},
 		Monitors: func(st *Stats) []Monitor { return []Monitor{NewC08Monitor(st)} }, Cases: tierMap(40, 128), Blocks: tierMap(300, 800)})
 }
 
 func init() {
 	Register(&PropDef{ID: "C10",
 		Profile: func(tier string, r *Rng) Profile {
-			return Profile{Name: "c10-power", MinTx: 3, MaxTx: 9, Equivocate: 0.01, Downtime: 0.03, Hostile: 0.1, VoteFault: 0.06, GapBig: 0.06, Gov: true,
+			p := Profile{Name: "c10-power", MinTx: 3, MaxTx: 9, Equivocate: 0.01, Downtime: 0.03, Hostile: 0.1, VoteFault: 0.06, GapBig: 0.06, Gov: true,
 				W: map[string]float64{"submit": 30, "tip": 8, "delegate": 10, "undelegate": 6, "redelegate": 5, "createReporter": 6, "selectReporter": 8, "switchReporter": 12, "removeSelector": 2,
 					"unjailReporter": 4, "proposeDispute": 3, "vote": 3, "createValidator": 1.5, "unjailVal": 1.5, "govProposal": 1, "govVote": 4, "cancelUnbond": 1.5}}
+			if r.Chance(0.3) {
+				p.Fragments = []string{"switchAfterRebond"} // stake leaves and re-enters the bonded set between a report and a switch
+			}
+			return p
 		},
 		World: func(cfg *WorldCfg, r *Rng) {
 			cfg.MaxValidators = uint32(3 + r.Pick(4))
